@@ -1,7 +1,7 @@
 # Author: Bohua Zhan
 
 from typing import Tuple
-from kernel.type import TFun, BoolType, TyInst
+from kernel.type import TFun, BoolType, TyInst, TypeMatchException
 from kernel import term
 from kernel.term import Term, Const, Implies, Eq, Forall, Lambda, Inst
 from kernel import term_ord
@@ -287,9 +287,16 @@ class Thm:
 
         """
         try:
+            # First determine the type instantiation from the schematic variables
+            # of the whole sequent, so it is applied uniformly to the hypotheses
+            # and the conclusion.
+            for t in th.hyps + (th.prop,):
+                for v in t.get_svars():
+                    if v.name in inst:
+                        v.T.match_incr(inst[v.name].get_type(), inst.tyinst)
             hyps_new = tuple(hyp.subst(inst) for hyp in th.hyps)
             prop_new = th.prop.subst(inst)
-        except term.TermException:
+        except (term.TermException, TypeMatchException):
             raise InvalidDerivationException("substitution")
         return Thm(prop_new, hyps_new)
 
